@@ -1,5 +1,5 @@
 """C04 — DTD never runs conflicting accesses at the same time (E2: enter/exit stamps, online exclusion counters, AGAIN counting)."""
-import random
+import os, random
 import e2dtd
 import c03
 
@@ -37,22 +37,23 @@ def cfg04(rng, ranks=1):
 
 def run(ctx):
     thorough = ctx.tier == 'thorough'
+    sc = lambda n: max(1, int(round(n * float(os.environ.get('VERIF_E2_SCALE', '1')))))    # scratch trials only
     ctx.rule = RULE
     ctx.assumptions = ['one atomic stamp counter orders enter/exit events of one process', 'PINS PREPARE_INPUT_BEGIN/EXEC_BEGIN callbacks run on the executing stream',
                        'only legal scripts (lib/e2dtd.py header); readers of one group may overlap', 'on >1 ranks only same-copy accesses on one rank are ordered']
     rng = random.Random(ctx.seed * 104729 + 4)
     camp = e2dtd.Campaign(ctx, 'C04', 'asan')
     jobs = []
-    n1 = 160 if thorough else 12
+    n1 = sc(160 if thorough else 12)
     for i in range(n1):
         s = e2dtd.gen(ctx.seed * 100000 + i, world=1, profile='c04', ntasks=rng.randint(30, 200 if thorough else 80))
         for c in range(3 if thorough else 2):
             jobs.append(dict(script=s, cfg=cfg04(rng, 1), kind='rg'))
     # general mixed scripts too (all shapes of conflicts), fewer
-    for i in range(40 if thorough else 3):
+    for i in range(sc(40 if thorough else 3)):
         s = e2dtd.gen(ctx.seed * 100000 + 20000 + i, world=1, profile='c03', ntasks=rng.randint(40, 150), nested=(i % 3 == 0), max_np=3)
         jobs.append(dict(script=s, cfg=e2dtd.pick_cfg(rng, 1, thorough, nested=(i % 3 == 0)), kind='mix'))
-    for i in range(30 if thorough else 3):
+    for i in range(sc(30 if thorough else 3)):
         ranks = 2 if not thorough else rng.choice([2, 2, 3])
         s = e2dtd.gen(ctx.seed * 100000 + 40000 + i, world=ranks, profile='c04', ntasks=rng.randint(20, 50), rounds=1)
         jobs.append(dict(script=s, cfg=cfg04(rng, ranks), kind='rgmp'))
